@@ -101,8 +101,17 @@ impl<'a> Lexer<'a> {
     }
 
     fn block_comment(&mut self) -> TokenKind {
-        self.s.eat_until("*/");
-        self.s.eat_if("*/");
+        // block comments nest
+        let mut depth = 1;
+        while depth > 0 {
+            if self.s.eat_if("*/") {
+                depth -= 1;
+            } else if self.s.eat_if("/*") {
+                depth += 1;
+            } else if self.s.eat().is_none() {
+                break;
+            }
+        }
         TokenKind::BlockComment
     }
 
